@@ -398,10 +398,27 @@ SHARED_DOCS = [
 ]
 
 
+def _stream_op(rng, c12, builder):
+    hexdoc, args = rng.choice(c12.BYTE_DOCS)
+    pad = b"<!--" + bytes([rng.choice(b"xyzw")]) * rng.randint(900, 3000) + b"-->" if rng.random() < 0.7 else b""
+    return {"op": "api_parse_bytes", "hex": (pad + hexdoc).hex(), "args": dict(args), "builder": builder,
+            "kind": rng.choice(["simbytes_noseek", "simbytes_noseek", "simbytes_seekraises", "http_plain"]),
+            "src": {"reads": [rng.randint(1, 1200) for _ in range(rng.randint(0, 3))], "rest": rng.choice([1 << 30, 1 << 30, 512, 2000])}}
+
+
 def gen_case(rng):
     from . import c12
     n_threads = rng.choice([2, 2, 3])
     threads = []
+    if rng.random() < 0.15:
+        # every thread reads its own document from its own simulated non-seekable transport: the threads spend
+        # their time blocked inside read() calls, interleaved by the scheduler
+        for _ in range(n_threads):
+            b = rng.choice(["etree", "etree_full", "dom"])
+            threads.append({"ops": [_stream_op(rng, c12, b) for _ in range(rng.randint(1, 2))]})
+        return {"prop": "C12", "stream": "M3", "threads": threads, "cold": rng.random() < 0.5,
+                "sched_seed": rng.getrandbits(48), "p_hot": rng.choice([0.5, 0.2, 0.05]),
+                "p_cold": rng.choice([0.005, 0.001, 0.02]), "opcodes": rng.random() < 0.3}
     for _ in range(n_threads):
         ops = []
         for _ in range(rng.randint(1, 3)):
